@@ -10,7 +10,7 @@
    new.  The frame condition of an operation is such a statement about the rows
    of the whole tree: every other row is unchanged, in unchanged order. *)
 From Coq Require Import List ZArith Bool Arith Permutation Sorted.
-From NT Require Import Sx Rose Surgery SurgeryFacts Machine MachineFacts Effects.
+From NT Require Import Sx Rose Surgery SurgeryFacts Machine MachineFacts Effects FrameTrees.
 Import ListNotations.
 
 (* ---- where add_child puts the new node ---- *)
@@ -208,6 +208,15 @@ Theorem C04_meta : forall w ti n o r w',
     (forall tj, tj <> ti -> get_tree w' tj = get_tree w tj).
 Proof. exact meta_effect. Qed.
 Print Assumptions C04_meta.
+
+(* ---- frame across trees, for EVERY operation and EVERY outcome (success, refusal, failing
+        callback): only the tree the operation works on can change; existing trees are never
+        dropped (ext = no shorter, and equal at every other index) ---- *)
+Theorem C04_frame_other_trees : forall w o,
+  length (trees w) <= length (trees (snd (step w o))) /\
+  forall tj, tj <> op_target w o -> tj < length (trees w) -> get_tree (snd (step w o)) tj = get_tree w tj.
+Proof. exact step_frame_trees. Qed.
+Print Assumptions C04_frame_other_trees.
 
 (* Not proved as Coq statements (kept as definitions; the correspondence and harness/mut_spec.py
    decide them on every run):
